@@ -81,7 +81,13 @@ pub enum PulseClass {
 }
 
 pub fn classify(len: u64) -> PulseClass {
-    let within = |nom: u64| len >= nom && len < nom + TOL;
+    classify_tol(len, 0, TOL)
+}
+
+/// classification with an observation tolerance: a pulse of nominal length `nom` may be observed
+/// as `nom - early ..= nom + late - 1` (used when the level is sampled only every few T-states)
+pub fn classify_tol(len: u64, early: u64, late: u64) -> PulseClass {
+    let within = |nom: u64| len + early >= nom && len < nom + late;
     if within(PILOT) {
         PulseClass::Pilot
     } else if within(SYNC1) {
@@ -129,6 +135,11 @@ pub struct Decoded {
 /// would: a leader of at least 256 pilot pulses, sync, then bit pairs. Pulses that do not form a
 /// valid leader are skipped as noise (the ROM would keep searching).
 pub fn decode(pulses: &[u64]) -> Vec<Decoded> {
+    decode_tol(pulses, 0, TOL)
+}
+
+pub fn decode_tol(pulses: &[u64], early: u64, late: u64) -> Vec<Decoded> {
+    let classify = |l: u64| classify_tol(l, early, late);
     let mut out = vec![];
     let mut i = 0usize;
     let n = pulses.len();
